@@ -137,6 +137,12 @@ class DavSys:
             raise ValueError(cfg.front)
         if "slow-body" in cfg.features:
             self.world.slow_body = 0.04
+        if "nested" in cfg.features:
+            # part of the initial state: a plain collection inside the calendar, holding a member that has the NAME of a
+            # top-level member of the alphabet but other content
+            base = cfg.prefix.rstrip("/") + COLL_PATHS["cal"]
+            self.world.request("MKCOL", base + "sub/")
+            self.world.request("PUT", base + "sub/a.ics", {"Content-Type": B.CT_ICS}, B.ics("uid-nested", "nested member"))
         self.world_b = None
         self._via_b = False
         self.diverged = False  # two workers: set once they disagree; everything after that is a consequence and is not judged again
@@ -577,6 +583,18 @@ class DavSys:
                 self.audit_views(coll, a, sorted(names))
             if "git" in feats and a["exists"]:
                 a["git"] = self.audit_git(coll)
+            if "shapes" in feats and a["exists"] and coll in ("cal", "c2") and (self.model.get(coll) or {}).get("kind", "calendar") == "calendar":
+                # filtered listings: which members a calendar-query for one component type returns - each shape twice in a row,
+                # one shape after the other (the way a client polling two views does), so that query-driven machinery is in use
+                a["shapes"] = {}
+                for comp in ("VEVENT", "VEVENT", "VTODO", "VTODO"):
+                    flt = '<C:comp-filter name="VCALENDAR"><C:comp-filter name="%s"/></C:comp-filter>' % comp
+                    rq = self.req("REPORT", base, dict(dav.XML_CT, Depth="1"), dav.calquery_body(flt, [dav.P_GETETAG]))
+                    if rq.status != 207:
+                        a["shapes"].setdefault(comp, []).append(("status", rq.status))
+                        continue
+                    msq = dav.parse_multistatus(rq.body)
+                    a["shapes"].setdefault(comp, []).append(tuple(sorted(urllib.parse.unquote(posixpath.basename(dav.resolve_href(base, x.href or ""))) for x in msq.responses)))
             if "C08" in self.cfg.oracles and a["exists"]:
                 # the tags once more, after all the reads of this audit (and asked for on their own)
                 r2 = self.req("PROPFIND", base, dict(dav.XML_CT, Depth="0"), dav.propfind_body([dav.P_GETETAG, dav.P_CTAG_CS, dav.P_CTAG_DAV, dav.P_SYNCTOKEN]))
@@ -633,6 +651,37 @@ class DavSys:
                 for x in ms.responses:
                     nm = urllib.parse.unquote(posixpath.basename(dav.resolve_href(base, x.href or "")))
                     views.setdefault(nm, {})["query"] = x.prop_text(dav.P_GETETAG)
+        if "nested" in self.cfg.features:
+            # Depth: infinity views: whatever href is reported with an ETag must be the ETag GET gives for that href as sent
+            deep = []
+            reqs = [("propfind-infinity", "PROPFIND", dav.propfind_body([dav.P_GETETAG, dav.P_RESOURCETYPE])), ("propfind-no-depth-header", "PROPFIND", dav.propfind_body([dav.P_GETETAG, dav.P_RESOURCETYPE]))]
+            if kind == "calendar":
+                reqs.append(("query-infinity", "REPORT", dav.calquery_body(dav.ALL_VCALENDAR, [dav.P_GETETAG])))
+            for (vname, meth, body) in reqs:
+                hd = dict(dav.XML_CT)
+                if vname != "propfind-no-depth-header":
+                    hd["Depth"] = "infinity"
+                rr = self.req(meth, base, hd, body)
+                if rr.status != 207:
+                    continue
+                msd = dav.parse_multistatus(rr.body)
+                seen_h = {}
+                for x in msd.responses:
+                    et = x.prop_text(dav.P_GETETAG)
+                    rt = dav.resourcetypes(x)
+                    if not et or (rt and "{DAV:}collection" in rt):
+                        continue
+                    tgt = dav.resolve_href(base, x.href or "")
+                    if tgt in seen_h and seen_h[tgt] != et:
+                        deep.append((vname, x.href, "listed-twice-with-different-etags", et, seen_h[tgt]))
+                    seen_h[tgt] = et
+                    g = self.req("GET", tgt)
+                    if g.status != 200 or g.headers.get("etag") != et:
+                        deep.append((vname, x.href, "get-disagrees", et, "%s %s" % (g.status, g.headers.get("etag"))))
+                nested_seen = any("/sub/" in (dav.resolve_href(base, x.href or "")) for x in msd.responses)
+                if not nested_seen and vname.startswith("propfind") and coll == "cal":
+                    deep.append((vname, None, "nested-member-not-listed", None, None))
+            a["deep"] = deep
         r = self.req("REPORT", base, dict(dav.XML_CT, Depth="1"), dav.sync_body("", [dav.P_GETETAG]))
         a["sync_status"] = r.status
         if r.status == 207:
@@ -728,6 +777,12 @@ class DavSys:
             if not a["exists"]:
                 self.violation("C01", "collection-missing:%s" % kind, "collection %s does not answer PROPFIND (status %s)" % (coll, a["status"]), {"op": op, "info": info})
                 continue
+            for comp, answers in (a.get("shapes") or {}).items():
+                want = tuple(sorted(n for n, b in m["members"].items() if n.lower().endswith(".ics") and (b"BEGIN:" + comp.encode()) in b))
+                for i, got in enumerate(answers):
+                    if got != want:
+                        self.violation("C01", "filtered-listing-mismatch:%s:%s" % (comp, "first" if i == 0 else "repeated"), "calendar-query for %s lists %s, the live members with such a component are %s" % (comp, list(got), list(want)), {"op": op, "coll": coll})
+                        break
             if set(a["listing"]) != set(m["members"]):
                 self.violation("C01", "listing-mismatch:%s" % kind, "Depth:1 listing %s != live members %s" % (sorted(a["listing"]), sorted(m["members"])), {"op": op, "coll": coll, "info": info})
             if a["dup_hrefs"]:
@@ -776,6 +831,8 @@ class DavSys:
             a = audit[coll]
             if not a["exists"]:
                 continue
+            for (vname, href, what, et1, et2) in a.get("deep") or ():
+                self.violation("C02", "deep-view:%s:%s" % (vname, what), "%s reports %r with ETag %s, but %s" % (vname, href, et1, et2), {"op": op, "coll": coll})
             for nm, g in a["get"].items():
                 if g[0] != 200:
                     # absent: no view may carry an etag
